@@ -449,6 +449,12 @@ func (r *vRun) runTeardown() {
 	case <-trig:
 		injected = true
 	case <-finished: // the run ended before the k-th event
+	case <-time.After(1800 * time.Second):
+		// neither: the injection point was never reached (e.g. a context cancellation planned for an event the handshake
+		// did not have) and the workload cannot finish by itself (e.g. the stream's only reader is the idle deadline reader
+		// and the receive buffer is full: the sender probes a zero window for ever). Tear down now, with a plain Close.
+		injected, kind = true, "close"
+		r.logf("e2e injectlate close %d", side)
 	}
 	t0 := time.Now()
 	if injected {
